@@ -191,21 +191,39 @@ func buildHistory(sc *Scenario, hist [][]*OpRec, trace []*simkit.RPCRecord, trut
 				write(op.Key, part{kind: 'w', val: opVal(op, -1)})
 			case "bput", "bputttl":
 				last := map[string]int{}
+				count := map[string]int{}
 				for i, k := range op.Keys {
 					last[k] = i
+					count[k]++
 				}
 				for _, k := range simkit.SortedKeys(last) {
-					write(k, part{kind: 'w', val: opVal(op, last[k])})
+					p := part{kind: 'w', val: opVal(op, last[k])}
+					write(k, p)
+					// a key listed n times may travel in up to n partial requests (the list is grouped by the region
+					// each occurrence is located in, and the layout may change in between); each of them writes the
+					// same value at its own instant inside the call - batch calls are not atomic across their parts
+					if !failed {
+						p.maybe = true
+						for i := 1; i < count[k] && i < 4; i++ {
+							add(rec, k, p, ret)
+						}
+					}
 				}
 			case "del":
 				write(op.Key, part{kind: 'd'})
 			case "bdel":
 				seen := map[string]int{}
 				for _, k := range op.Keys {
-					seen[k] = 1
+					seen[k]++
 				}
 				for _, k := range simkit.SortedKeys(seen) {
 					write(k, part{kind: 'd'})
+					if !failed {
+						// as for bput: one deletion per partial request that carries the key
+						for i := 1; i < seen[k] && i < 4; i++ {
+							add(rec, k, part{kind: 'd', maybe: true}, ret)
+						}
+					}
 				}
 			case "delrange":
 				for _, k := range dataKeys {
